@@ -8,5 +8,7 @@ CONSTANTS
   Lifecycle = "separate"
   SecondCheck = TRUE
   Filter = TRUE
+  MaxFail = 1
+  GiveBack = FALSE
   MaxSteps = 40
 INVARIANTS Emit GenInvariants
